@@ -365,8 +365,10 @@ where
     format!("order={} nodes={} m={} edges={}", nodes.len(), list(nodes.iter()), m, pairs_str(&es))
 }
 
-fn dec_lines(ctx: &mut Ctx, rng: &mut Rng, s: &str, n: usize, all_types: bool) {
-    let req = |ty: &str| format!("dec {} {}", ty, s);
+/// `valid`: a `dec` line (the string itself is printed; the driver checks that it is a valid graph6 string);
+/// otherwise a `decx` line of the malformed-input stream (the string goes as code points)
+fn dec_lines_v(ctx: &mut Ctx, rng: &mut Rng, s: &str, n: usize, all_types: bool, valid: bool) {
+    let req = |ty: &str| if valid { format!("dec {} {}", ty, s) } else { format!("decx {} {}", ty, cps(s)) };
     let r = catch(|| {
         let (order, es): (usize, Vec<(u32, u32)>) = from_graph6_representation(s.to_string());
         let es: Vec<(usize, usize)> = es.iter().map(|&(a, b)| (a as usize, b as usize)).collect();
@@ -376,36 +378,41 @@ fn dec_lines(ctx: &mut Ctx, rng: &mut Rng, s: &str, n: usize, all_types: bool) {
     let which: Vec<usize> = if all_types { (0..5).collect() } else { vec![rng.below(5)] };
     for k in which {
         let (ty, r) = match k {
-            0 => (
-                "graph",
-                if n <= 22 && rng.chance(30) {
-                    catch(|| {
-                        let g = Graph::<(), (), Undirected, u8>::from_graph6_string(s.to_string());
-                        dec_obs(&g, g.edge_count(), false)
-                    })
+            0 => {
+                if valid && n <= 22 && rng.chance(30) {
+                    (
+                        "graph8",
+                        catch(|| {
+                            let g = Graph::<(), (), Undirected, u8>::from_graph6_string(s.to_string());
+                            dec_obs(&g, g.edge_count(), false)
+                        }),
+                    )
                 } else {
-                    catch(|| {
-                        let g = Graph::<(), (), Undirected, u32>::from_graph6_string(s.to_string());
-                        dec_obs(&g, g.edge_count(), false)
-                    })
-                },
-            ),
+                    (
+                        "graph32",
+                        catch(|| {
+                            let g = Graph::<(), (), Undirected, u32>::from_graph6_string(s.to_string());
+                            dec_obs(&g, g.edge_count(), false)
+                        }),
+                    )
+                }
+            }
             1 => (
-                "stable",
+                "stable16",
                 catch(|| {
                     let g = StableGraph::<(), (), Undirected, u16>::from_graph6_string(s.to_string());
                     dec_obs(&g, g.edge_count(), false)
                 }),
             ),
             2 => (
-                "map",
+                "map32",
                 catch(|| {
                     let g = GraphMap::<u32, (), Undirected, RandomState>::from_graph6_string(s.to_string());
                     dec_obs(&g, g.edge_count(), false)
                 }),
             ),
             3 => (
-                "matrix",
+                "matrix16",
                 catch(|| {
                     let g = MatrixGraph::<(), (), RandomState, Undirected, Option<()>, u16>::from_graph6_string(
                         s.to_string(),
@@ -414,7 +421,7 @@ fn dec_lines(ctx: &mut Ctx, rng: &mut Rng, s: &str, n: usize, all_types: bool) {
                 }),
             ),
             _ => (
-                "csr",
+                "csr32",
                 catch(|| {
                     let g = Csr::<(), (), Undirected, u32>::from_graph6_string(s.to_string());
                     dec_obs(&g, g.edge_count(), true)
@@ -425,8 +432,207 @@ fn dec_lines(ctx: &mut Ctx, rng: &mut Rng, s: &str, n: usize, all_types: bool) {
     }
 }
 
+fn dec_lines(ctx: &mut Ctx, rng: &mut Rng, s: &str, n: usize, all_types: bool) {
+    dec_lines_v(ctx, rng, s, n, all_types, true)
+}
+
+// ------------------------------------------------------------------------------------------------
+// the malformed-input stream: what `from_graph6_representation` / `from_graph6_string` do on strings that are NOT
+// valid graph6 strings (the decoder has no error type: it panics or answers something)
+
+/// characters below 63 (`(c as usize) - N` overflows in a debug build)
+const LOW: &[char] = &[' ', '>', '0', '!', '\u{0}', '\t', '\n', '=', '"'];
+/// characters above 126 (silently accepted: the low six bits of `c - 63` are used)
+const HIGH: &[char] = &['\u{7f}', '\u{80}', '\u{81}', 'é', '→', '😀', '\u{10FFFF}', '\u{be}', '\u{ff}'];
+
+fn valid_string(rng: &mut Rng, n: usize, long: bool) -> String {
+    let t = n * n.saturating_sub(1) / 2;
+    let p = *rng.pick(&[0u32, 20, 50, 80, 100]);
+    let bits: Vec<bool> = (0..t).map(|_| rng.chance(p)).collect();
+    if long && n <= 62 {
+        // the four-byte size header for a small order: not what the format prescribes, but the decoder reads it
+        let mut all: Vec<bool> = (0..18).rev().map(|i| (n >> i) & 1 == 1).collect();
+        all.extend_from_slice(&bits);
+        while all.len() % 6 != 0 {
+            all.push(false);
+        }
+        let mut out = String::from("~");
+        for c in all.chunks(6) {
+            out.push((c.iter().fold(0u8, |a, b| a * 2 + *b as u8) + 63) as char);
+        }
+        out
+    } else {
+        pack_graph6(n, &bits)
+    }
+}
+
+fn mal_case(ctx: &mut Ctx, rng: &mut Rng, case: u64) {
+    let n = match rng.below(8) {
+        0 => rng.below(3),
+        1..=4 => 2 + rng.below(9),
+        5 => 11 + rng.below(30),
+        6 => *rng.pick(&[62usize, 63, 64]),
+        _ => 41 + rng.below(30),
+    };
+    let base = valid_string(rng, n, false);
+    let chars: Vec<char> = base.chars().collect();
+    let kind = rng.below(16);
+    let (name, s): (&str, String) = match kind {
+        0 => ("empty", String::new()),
+        1 => {
+            // truncated: the last k characters are missing
+            let k = 1 + rng.below(chars.len().min(4));
+            ("truncated", chars[..chars.len() - k.min(chars.len())].iter().collect())
+        }
+        2 => {
+            // a byte below 63 somewhere (header or body)
+            let mut c = chars.clone();
+            let pos = if rng.chance(30) { 0 } else { rng.below(c.len()) };
+            c[pos] = *rng.pick(LOW);
+            ("low-byte", c.into_iter().collect())
+        }
+        3 => {
+            // a byte above 126 somewhere
+            let mut c = chars.clone();
+            let pos = if rng.chance(30) { 0 } else { rng.below(c.len()) };
+            c[pos] = *rng.pick(HIGH);
+            ("high-byte", c.into_iter().collect())
+        }
+        4 => {
+            // too long: surplus characters after the last group
+            let mut c = chars.clone();
+            for _ in 0..1 + rng.below(6) {
+                c.push((63 + rng.below(64) as u8) as char);
+            }
+            ("too-long", c.into_iter().collect())
+        }
+        5 => {
+            // one character removed from the middle (wrong length for the order)
+            let mut c = chars.clone();
+            if c.len() > 1 {
+                let pos = 1 + rng.below(c.len() - 1);
+                c.remove(pos);
+            }
+            ("char-removed", c.into_iter().collect())
+        }
+        6 => {
+            // long header forms that are cut short
+            ("short-long-header", (*rng.pick(&["~", "~?", "~??", "~~", "~~~", "~?A"])).to_string())
+        }
+        7 => ("long-header-small-order", valid_string(rng, n.min(40), true)),
+        8 => {
+            // the eight-byte header `~~` + 36 bits: read by the decoder as an 18-bit order >= 258048
+            let mut out = String::from("~~");
+            for _ in 0..6 + rng.below(8) {
+                out.push((63 + rng.below(64) as u8) as char);
+            }
+            ("eight-byte-header", out)
+        }
+        9 => {
+            // non-zero padding bits in the last character
+            let mut c = chars.clone();
+            let t = n * n.saturating_sub(1) / 2;
+            let pad = (6 - t % 6) % 6;
+            if pad > 0 && c.len() > 1 {
+                let last = c.len() - 1;
+                let v = c[last] as u8 - 63;
+                c[last] = ((v | ((1u8 << pad) - 1)) + 63) as char;
+            }
+            ("nonzero-padding", c.into_iter().collect())
+        }
+        10 => {
+            // the header claims one node more than the body has bits for
+            let nb = n + 1 + rng.below(3);
+            let bigger = valid_string(rng, nb, false);
+            let hl = if nb >= 63 { 4 } else { 1 };
+            let mut out: String = bigger.chars().take(hl).collect();
+            out.extend(chars.iter().skip(if n >= 63 { 4 } else { 1 }));
+            ("order-too-big", out)
+        }
+        11 => {
+            // random printable text in the byte range of the format
+            let len = rng.below(13);
+            ("garbage", (0..len).map(|_| (63 + rng.below(64) as u8) as char).collect())
+        }
+        12 => {
+            // arbitrary text: any mix of low, valid and high characters
+            let len = 1 + rng.below(8);
+            (
+                "text",
+                (0..len)
+                    .map(|_| match rng.below(4) {
+                        0 => *rng.pick(LOW),
+                        1 => *rng.pick(HIGH),
+                        _ => (63 + rng.below(64) as u8) as char,
+                    })
+                    .collect(),
+            )
+        }
+        13 => {
+            // several high bytes: a string that is no graph6 text at all but decodes
+            let mut c = chars.clone();
+            for x in c.iter_mut() {
+                if rng.chance(40) {
+                    *x = char::from_u32(*x as u32 + 64 * (1 + rng.below(3)) as u32).unwrap_or(*x);
+                }
+            }
+            ("shifted-by-64", c.into_iter().collect())
+        }
+        14 => ("valid", base.clone()), // control: a valid string through the same path
+        _ => {
+            // `~` in first position of a short string: the next three bytes become the order
+            let mut c = chars.clone();
+            c[0] = '~';
+            ("tilde-first", c.into_iter().collect())
+        }
+    };
+    ctx.raw(&format!("case {} g6x {} n={} len={} {}", case, name, n, s.chars().count(), profile()));
+    let all = rng.chance(40);
+    dec_lines_v(ctx, rng, &s, n, all, false);
+    // a second string of the same kind of damage applied to the result (compound damage)
+    if rng.chance(35) && !s.is_empty() {
+        let mut c: Vec<char> = s.chars().collect();
+        match rng.below(3) {
+            0 => {
+                c.pop();
+            }
+            1 => c.push(*rng.pick(HIGH)),
+            _ => {
+                let pos = rng.below(c.len());
+                c[pos] = *rng.pick(LOW);
+            }
+        }
+        let s2: String = c.into_iter().collect();
+        dec_lines_v(ctx, rng, &s2, n, false, false);
+    }
+}
+
+/// the build profile, for the driver's decoder model: does `usize` subtraction panic on overflow (debug profile) or wrap
+/// (release profile: `overflow-checks = false`); are `debug_assert!`s compiled in.  petgraph is built with the same profile.
+fn profile() -> String {
+    let ovf = catch(|| {
+        let z = std::hint::black_box(0usize);
+        std::hint::black_box(z - std::hint::black_box(1usize))
+    })
+    .is_none();
+    format!("ovf={} dbg={}", ovf as u8, cfg!(debug_assertions) as u8)
+}
+
 fn g6_case(ctx: &mut Ctx, rng: &mut Rng, case: u64, a: Abs, family: &str) {
-    ctx.raw(&format!("case {} g6 {} n={} m={} simple={}", case, family, a.n, a.edges.len(), a.simple as u8));
+    let mut a = a;
+    if a.simple {
+        // the truth line lists a simple graph in the format's (column-major) order; the driver checks that
+        a.edges.sort_by_key(|&(r, c)| (c, r));
+    }
+    ctx.raw(&format!(
+        "case {} g6 {} n={} m={} simple={} {}",
+        case,
+        family,
+        a.n,
+        a.edges.len(),
+        a.simple as u8,
+        profile()
+    ));
     ctx.line(
         &format!("truth n={} simple={} edges={}", a.n, a.simple as u8, pairs_str(&a.edges)),
         "ok",
@@ -617,6 +823,33 @@ impl TW for Pw {
         }
     }
 }
+/// a weight whose `Display` and `Debug` write quotes, backslashes, line breaks, braces and non-ASCII text RAW (a
+/// hand-written `Debug` need not escape anything)
+#[derive(Clone)]
+struct Rw(String, String);
+impl Display for Rw {
+    fn fmt(&self, f: &mut fmt::Formatter) -> fmt::Result {
+        if f.alternate() {
+            write!(f, "{{{}}}\n\"{}\"é", self.0, self.1)
+        } else {
+            write!(f, "{}\"{}\\", self.0, self.1)
+        }
+    }
+}
+impl Debug for Rw {
+    fn fmt(&self, f: &mut fmt::Formatter) -> fmt::Result {
+        if f.alternate() {
+            write!(f, "Rw {{\n    \"{}\",\n\t{} →\n}}", self.0, self.1)
+        } else {
+            write!(f, "Rw(\"{}\"|{}\\)", self.0, self.1)
+        }
+    }
+}
+impl TW for Rw {
+    fn gen(rng: &mut Rng) -> Self {
+        Rw(adversarial(rng), adversarial(rng))
+    }
+}
 impl TW for i32 {
     fn gen(rng: &mut Rng) -> Self {
         *rng.pick(&[0, 1, -1, 10, 255, 256, -256, 48879, i32::MAX, i32::MIN, 7, 7, 7])
@@ -660,9 +893,15 @@ impl Interner {
     }
 }
 
+/// attribute-getter strings: petgraph writes them verbatim, so each is a well-formed `a_list` fragment (the driver checks
+/// that: `attrFrag`) — with everything such a fragment may contain: quoted strings holding escaped quotes, backslashes,
+/// brackets, braces, raw line breaks and non-ASCII text; `;` and `,` separators; names that end the string; white space
 const ATTRS: &[&str] = &[
     "", "color=red ", "shape = \"box\" ", "penwidth=2, style=\"dashed\" ", "fontname=\"a b\" ; weight = 1.5 ",
     "tooltip=\"q\\\"uote ]\" ", "color=\"#ff0000\"",
+    "xlabel=\"é→😀\" ", "comment=\"{a|b} [x] ; , = -> -- // #\" ", "tooltip=\"line1\nline2\" ",
+    "tooltip=\"back\\\\slash\" ", "k=\"\"", "color=red", "a=b;c=d,e=f;", "färbe=rot ", "w=1.5,h=.5 ",
+    "\t\n  color=blue\n", "URL=\"x\\\"]\n    9 [ label = \\\"y\" ",
 ];
 /// attribute getters: a function of what the weight displays (so harness and getters agree)
 fn attr_of(shown: &str) -> &'static str {
@@ -850,7 +1089,7 @@ fn dot_lines<G>(
     for k in 0..rounds {
         let configs = if all_configs { config_combo(k) } else { random_configs(rng) };
         let spec = rng.below(nspecs);
-        let with_attrs = rng.chance(25);
+        let with_attrs = rng.chance(35);
         let text = catch(|| {
             if with_attrs {
                 render(&Dot::with_attr_getters(g, &configs, &edge_attr, &node_attr), spec)
@@ -1109,6 +1348,10 @@ fn dot_case_ty<Ty: EdgeType>(ctx: &mut Ctx, rng: &mut Rng, gtype: usize, wk: usi
             let (g, t) = dot_graph::<Pw, Pw, Ty>(rng);
             run_dd!(ctx, rng, &g, "graph", &t)
         }
+        (0, 3) => {
+            let (g, t) = dot_graph::<Rw, Rw, Ty>(rng);
+            run_dd!(ctx, rng, &g, "graph", &t)
+        }
         (0, _) => {
             let (g, t) = dot_graph::<i32, i32, Ty>(rng);
             run_hex!(ctx, rng, &g, "graph", &t)
@@ -1119,6 +1362,10 @@ fn dot_case_ty<Ty: EdgeType>(ctx: &mut Ctx, rng: &mut Rng, gtype: usize, wk: usi
         }
         (1, 1) => {
             let (g, t) = dot_stable::<Pw, String, Ty>(rng);
+            run_dd!(ctx, rng, &g, "stable", &t)
+        }
+        (1, 3) => {
+            let (g, t) = dot_stable::<Rw, String, Ty>(rng);
             run_dd!(ctx, rng, &g, "stable", &t)
         }
         (1, _) => {
@@ -1133,6 +1380,10 @@ fn dot_case_ty<Ty: EdgeType>(ctx: &mut Ctx, rng: &mut Rng, gtype: usize, wk: usi
             let (g, t) = dot_map::<&'static str, Pw, Ty>(rng);
             run_dd!(ctx, rng, &g, "map", &t)
         }
+        (2, 3) => {
+            let (g, t) = dot_map::<&'static str, Rw, Ty>(rng);
+            run_dd!(ctx, rng, &g, "map", &t)
+        }
         (2, _) => {
             let (g, t) = dot_map::<i32, i32, Ty>(rng);
             run_hex!(ctx, rng, &g, "map", &t)
@@ -1143,6 +1394,10 @@ fn dot_case_ty<Ty: EdgeType>(ctx: &mut Ctx, rng: &mut Rng, gtype: usize, wk: usi
         }
         (3, 1) => {
             let (g, t) = dot_matrix::<String, Pw, Ty>(rng);
+            run_dd!(ctx, rng, &g, "matrix", &t)
+        }
+        (3, 3) => {
+            let (g, t) = dot_matrix::<Rw, Rw, Ty>(rng);
             run_dd!(ctx, rng, &g, "matrix", &t)
         }
         (3, _) => {
@@ -1156,13 +1411,13 @@ fn dot_case_ty<Ty: EdgeType>(ctx: &mut Ctx, rng: &mut Rng, gtype: usize, wk: usi
 fn dot_case(ctx: &mut Ctx, rng: &mut Rng, case: u64) {
     let gtype = rng.weighted(&[3, 4, 3, 3, 2]);
     let directed = rng.chance(50) || gtype == 4;
-    let wk = rng.weighted(&[5, 3, 2]);
+    let wk = rng.weighted(&[5, 3, 2, 2]);
     ctx.raw(&format!(
         "case {} dot {} {} w={}",
         case,
         ["graph", "stable", "map", "matrix", "csr"][gtype],
         if directed { "dir" } else { "undir" },
-        ["string", "struct", "int"][wk]
+        ["string", "struct", "int", "raw"][wk]
     ));
     if gtype == 4 {
         match wk {
@@ -1172,6 +1427,10 @@ fn dot_case(ctx: &mut Ctx, rng: &mut Rng, case: u64) {
             }
             1 => {
                 let (g, t) = dot_csr::<Pw, Pw>(rng);
+                run_dd!(ctx, rng, &g, "csr", &t)
+            }
+            3 => {
+                let (g, t) = dot_csr::<Rw, Rw>(rng);
                 run_dd!(ctx, rng, &g, "csr", &t)
             }
             _ => {
@@ -1191,6 +1450,10 @@ pub fn run(ctx: &mut Ctx, case: u64) {
     if ctx.tier_thorough && case < EXHAUSTIVE {
         let a = exhaustive_graph(case);
         g6_case(ctx, &mut rng, case, a, "exhaustive");
+        return;
+    }
+    if rng.chance(9) {
+        mal_case(ctx, &mut rng, case);
         return;
     }
     if rng.chance(45) {
